@@ -41,3 +41,23 @@ Definition run_ifail (fixed : bool) (step0 : float) :=
                 (mkInt IFailed 0%float 0%float []) (V3 0 0 1)%float false (fun _ => None) None in
   let s1 := interact_act fixed i s in
   (mstep s1, paction_code (mpost s1)).
+
+(** PropagationApplier with a scripted propagator: (step length, post action) *)
+Definition run_propagate (post0 : Z) (step0 dist : float) (boundary : bool) :=
+  let s := propagation_result_apply dist boundary
+             (blank Alive step0 (paction_of post0) 1%float 1%float 0%float) in
+  (mstep s, paction_code (mpost s)).
+
+(** MscStepLimitApplier + MscApplier with a scripted helper over consecutive steps of one
+    slot: per step (apply_step called?, step after limit, step after apply) *)
+Fixpoint msc_seq (m : mscstep float) (l : list (float * bool * float * float))
+  : list (bool * float * float) :=
+  match l with
+  | [] => []
+  | (phys, app, t, g) :: r =>
+    let s0 := blank Alive phys ADiscrete 1%float 1%float 0%float in
+    let '(s1, m1) := msc_limit_act app t g s0 m in
+    let '(s2, called) := msc_apply_act s1 m1 in
+    (called, mstep s1, mstep s2) :: msc_seq m1 r
+  end.
+Definition run_msc (l : list (float * bool * float * float)) := msc_seq (mkMsc 0%float 0%float) l.
